@@ -88,7 +88,7 @@ pub fn sample_process(log: &[LogOp], r: &mut Rng, max: usize, all: bool, partial
         for k in &cuts {
             let op = &log[*k - 1];
             if partial && op.kind == Kind::Write && op.len > 1 {
-                for p in partial_points(op.len, r) {
+                for p in partial_points(op.off, op.len, r) {
                     out.push(CrashSpec::Process { cut: *k - 1, partial: Some(p) });
                 }
             }
@@ -125,8 +125,8 @@ pub fn sample_process(log: &[LogOp], r: &mut Rng, max: usize, all: bool, partial
         let i = r.weighted(&weights);
         let k = cuts[i];
         let op = &log[k - 1];
-        if partial && op.kind == Kind::Write && op.len > 1 && r.chance(1, 3) {
-            let pts = partial_points(op.len, r);
+        let pts = if partial && op.kind == Kind::Write && op.len > 1 { partial_points(op.off, op.len, r) } else { Vec::new() };
+        if !pts.is_empty() && r.chance(1, 2) {
             out.push(CrashSpec::Process { cut: k - 1, partial: Some(*r.pickv(&pts)) });
         } else {
             out.push(CrashSpec::Process { cut: k, partial: None });
@@ -140,18 +140,21 @@ pub fn sample_process(log: &[LogOp], r: &mut Rng, max: usize, all: bool, partial
     out
 }
 
-fn partial_points(len: u64, r: &mut Rng) -> Vec<u64> {
-    let mut v = vec![1, len / 2, len - 1];
-    if len > 48 {
-        v.push(48);
+/// Where a process can be killed inside one write(): the kernel copies page by page and checks for
+/// a fatal signal between pages, so the surviving prefix ends on a page boundary of the file.
+fn partial_points(off: u64, len: u64, r: &mut Rng) -> Vec<u64> {
+    let first = 4096 - (off % 4096);
+    let mut v: Vec<u64> = Vec::new();
+    let mut p = first;
+    while p < len {
+        v.push(p);
+        p += 4096;
     }
-    if len > 512 {
-        v.push(512 * r.range(1, (len / 512).max(1)));
+    if v.len() > 3 {
+        // first boundary, last boundary, one in between
+        let mid = v[r.range(1, v.len() as u64 - 2) as usize];
+        v = vec![v[0], mid, *v.last().unwrap()];
     }
-    v.push(r.range(1, len - 1));
-    v.retain(|p| *p >= 1 && *p < len);
-    v.sort();
-    v.dedup();
     v
 }
 
@@ -407,7 +410,16 @@ impl<'a> Eval<'a> {
             } else {
                 let e = o.err.unwrap_or_default();
                 let reason: String = e.rsplit(": ").next().unwrap_or("").chars().filter(|c| !c.is_ascii_digit()).take(48).collect::<String>().trim().replace(' ', "-");
-                let sig = self.sig_for(ctx, &format!("open-fails:{reason}"));
+                // One cause, many phases: a write into the log region that was torn (or, un-synced,
+                // lost) makes the next open fail on the log's tail. That finding is identified by the
+                // damaged write, not by the call during which the power failed.
+                let wal_size = cur_img.files.get(FILE).filter(|b| b.len() >= 32).map(|b| u64::from_le_bytes(b[24..32].try_into().unwrap())).unwrap_or(65536).clamp(65536, 1 << 32);
+                let in_wal = |i: usize| seg.log.get(i).is_some_and(|o| o.kind == Kind::Write && o.off >= 4096 && o.off < 4096 + wal_size);
+                let wal_write_damaged = match &cp.spec {
+                    CrashSpec::Power { drop, tear, .. } => tear.is_some_and(|(i, _)| in_wal(i)) || drop.iter().any(|i| in_wal(*i)),
+                    CrashSpec::Process { cut, partial } => partial.is_some() && in_wal(*cut),
+                };
+                let sig = if reason.starts_with("wal-record") && wal_write_damaged && nested_done.is_empty() { format!("log-write-torn-or-lost/open-fails:{reason}") } else { self.sig_for(ctx, &format!("open-fails:{reason}")) };
                 out.push((mk("crash-state", &sig, format!("[{ctx}] open failed after {:?} nested {:?}: {e}", cp.spec, nested_done)), cp.clone()));
             }
             let _ = std::fs::remove_dir_all(&dir);
@@ -651,6 +663,12 @@ pub fn allowed_states_power(w: &World, seg: &Segment, cut: usize, first_op_of_se
             }
             cands.push(a.recovered_durable());
             cands.push(b.recovered());
+            if b.cards_committed != a.cards_committed || b.mesh_committed != a.mesh_committed {
+                let mut c = b.clone();
+                c.cards_committed = a.cards_committed.min(c.cards.len());
+                c.mesh_committed = (a.mesh_committed.0.min(c.mesh_nodes.len()), a.mesh_committed.1.min(c.mesh_edges.len()));
+                cands.push(c.recovered_keep_commit_marks());
+            }
         }
         None => {
             let a = match last_end {
@@ -681,6 +699,14 @@ pub fn allowed_states(w: &World, seg: &Segment, cut: usize, first_op_of_seg_mode
             }
             cands.push(a.recovered());
             cands.push(b.recovered());
+            // cards and mesh entries are not logged: an in-flight call whose log record survived
+            // but whose commit did not finish shows the frames of `b` with the tracks of `a`
+            if b.cards_committed != a.cards_committed || b.mesh_committed != a.mesh_committed {
+                let mut c = b.clone();
+                c.cards_committed = a.cards_committed.min(c.cards.len());
+                c.mesh_committed = (a.mesh_committed.0.min(c.mesh_nodes.len()), a.mesh_committed.1.min(c.mesh_edges.len()));
+                cands.push(c.recovered_keep_commit_marks());
+            }
         }
         None => match last_end {
             Some(j) => cands.push(snap_after(j).recovered()),
